@@ -4,6 +4,7 @@ package slip
 
 import (
 	"strings"
+	"sync/atomic"
 )
 
 // Class represents all class types.
@@ -66,4 +67,20 @@ func RegisterClass(name string, c Class) {
 		p = CurrentPackage
 	}
 	p.RegisterClass(name, c)
+}
+
+var classGeneration atomic.Int64
+
+// ClassesChanged is called when a class is defined or redefined. Anything
+// that remembers a result derived from a class precedence list, such as the
+// effective method cache of a generic function, compares ClassGeneration()
+// with the value it saw when it filled its cache.
+func ClassesChanged() {
+	classGeneration.Add(1)
+}
+
+// ClassGeneration returns a counter that changes with every class definition
+// or redefinition.
+func ClassGeneration() int64 {
+	return classGeneration.Load()
 }
